@@ -709,7 +709,7 @@ func authVariant(r *vlib.R) string {
 	if r.Chance(2, 3) {
 		return "good"
 	}
-	return vlib.Pick(r, []string{"cd", "nosig", "nodsig", "badsig"})
+	return vlib.Pick(r, []string{"cd", "nosig", "nodsig", "badsig", "insec", "insecnosig"})
 }
 
 func genNsec3Case(r *vlib.R, emit func(string)) int {
